@@ -19,8 +19,16 @@ Ev == Trace[l]
 WordAt(b, i) == <<b[4 * i - 3] + 256 * b[4 * i - 2], b[4 * i - 1] + 256 * b[4 * i]>>     \* 1-based word index
 Words(b) == [i \in 1..(Len(b) \div 4) |-> WordAt(b, i)]
 
-Failures(e) ==
+(* records with src = "gen": a stream produced by the real generator at the hardware limit (n = its length in words) *)
+GenFailures(e) ==
   IF e.crashed THEN {"NoInternalError"}
+  ELSE IF e.rejected THEN (IF 4 * e.n >= P!HwLimitBytes THEN {} ELSE {"AcceptsRepresentableLength"})
+  ELSE IF 4 * e.n >= P!HwLimitBytes THEN {"RejectsBeyondHardwareLimit"}
+  ELSE (IF e.framed_len < 0 \/ ~e.tail_match THEN {"BodyUnmodifiedLittleEndian"} ELSE {})
+
+Failures(e) ==
+  IF e.src = "gen" THEN GenFailures(e)
+  ELSE IF e.crashed THEN {"NoInternalError"}
   ELSE IF e.rejected THEN (IF e.n >= P!MaxLen THEN {} ELSE {"AcceptsRepresentableLength"})
   ELSE IF e.n >= P!MaxLen THEN {"RejectsTooLong"}
   ELSE LET ws == Words(e.bytes)
